@@ -366,6 +366,7 @@ int main(int argc, char** argv) {
     }
   };
 
+  std::vector<std::string> n7x, n7y;  // filled below (N7)
   vr::CheckFn check = [&](const vr::Family& f, uint64_t idx, vr::Ctx& ctx) {
     const std::string& nm = f.name;
     if (nm == "N1_integers") {
@@ -470,6 +471,18 @@ int main(int argc, char** argv) {
       check_number("-" + s, ctx, true, eb | (1ull << 63), einf);
       return;
     }
+    if (nm[1] == '7') {
+      const std::string& X = n7x[idx / n7y.size()];
+      const std::string& Y = n7y[idx % n7y.size()];
+      if (ctx.want_sample) ctx.sample("X=" + X.substr(0, 40) + "... then Y=" + Y.substr(0, 60));
+      ctx.nontriv();
+      {
+        Document dx;
+        dx.Parse(X);  // result irrelevant; only its effect on later parses matters
+      }
+      check_number(Y, ctx);
+      return;
+    }
     if (nm[1] == '5') {
       if (ctx.want_sample) ctx.sample(n5[idx].substr(0, 100));
       ctx.nontriv();
@@ -513,13 +526,53 @@ int main(int argc, char** argv) {
     }
   };
 
-  fams = {f1, f2, f2b, f3, f3b, f4, f5, f6};
+  // N7: ordered pairs "parse X, then parse Y" in one thread: the result for Y must not depend on what was
+  // parsed before (scratch state of the slow paths).  X: spellings that drive the fallbacks into unusual
+  // states (more than 800 digits with a non-zero tail, overflow, underflow, errors); Y: exact ties and
+  // other rounding-sensitive spellings.
+  {
+    std::string tie1 = "1.00000000000000011102230246251565404236316680908203125";
+    n7x.push_back(tie1 + std::string(800, '0') + "1");
+    n7x.push_back("9" + std::string(900, '9') + "e-600");
+    n7x.push_back("0." + std::string(400, '0') + std::string(850, '7'));
+    n7x.push_back("1" + std::string(850, '3') + ".5e-851");
+    n7x.push_back("1e400");
+    n7x.push_back("-1e400");
+    n7x.push_back("1e-400");
+    n7x.push_back("123456789012345678901234567890123456789e-20");
+    n7x.push_back("4.9406564584124654e-324");
+    n7x.push_back("2.4703282292062327208828439643411068618252990130716238221279284125033775363510437593264991818081799618989828234772285886546332835517796989819938739800539093906315035659515570226392290858392449105184435931802849936536152500319370457678249219365623669863658480757001585769269903706311928279558551332927834338409351978015531246597263579574622766465272827220056374006485499977096599470454020828166226237857393450736339007967761930577506740176324673600968951340535537458516661134223766678604162159680461914467291840300530057530849048765391711386591646239524912623653881879636239373280423891018672348497668235089863388587925628302755995657524455507255189313690836254779186948667994968324049705821028513185451396213837722826145437693412532098591327667236328125");
+    n7x.push_back("1.7976931348623158079372897140530341507993413271003782693617377898044496829276475094664901797758720709633028641669288791094655554785194040263065748867150582068190890200070838367627385484581771153176447573027006985557136695962284291481986083493647529271907416844436551070434271155969950809304288017790417449779e308");
+    n7x.push_back("1x");
+    n7x.push_back("-");
+    n7x.push_back("[1e400]");
+    // Y: exact ties (both parities) taken from N4 for a few exponents, plus classics
+    for (unsigned be : {1u, 1023u, 1024u, 1075u, 2000u})
+      for (unsigned pi : {0u, 1u, 3u, 7u, 10u})
+        for (unsigned var = 0; var < 3; var++) {
+          Dec d;
+          uint64_t eb;
+          bool einf;
+          n4case(be, pi, var, d, eb, einf);
+          n7y.push_back(plain(d));
+        }
+    for (const char* s : {"9007199254740993", "9007199254740992.5", "1e23", "8.5e22", "0.1", "2.2250738585072011e-308", "1.7976931348623157e308", "4.35", "123456789012345678901234567890", "5e-324", "0.000001"}) n7y.push_back(s);
+    n7y.push_back(tie1);
+  }
+  vr::Family f7;
+  f7.name = "N7_history_pairs";
+  f7.count = (uint64_t)n7x.size() * n7y.size();
+  f7.group = "N7";
+  f7.chunk = 16;
+  f7.rule = "ordered pairs (X,Y): X (14 spellings that drive the slow paths into unusual states: >800 digits with non-zero tail, overflow, underflow, malformed) is parsed first, then Y (" + std::to_string(n7y.size()) +
+            " rounding-sensitive spellings: exact ties of both parities and their neighbours, classics) is checked as usual: the result for Y must not depend on the history";
+  fams = {f1, f2, f2b, f3, f3b, f4, f5, f6, f7};
   if (asan) {
     // the ASan pass re-runs the structurally interesting families only
-    fams = {f1, f2b, f4, f5, f6};
+    fams = {f1, f2b, f4, f5, f6, f7};
   }
   if (args.replay) {
-    std::vector<vr::Family> all = {f1, f2, f2b, f3, f3b, f4, f5, f6};
+    std::vector<vr::Family> all = {f1, f2, f2b, f3, f3b, f4, f5, f6, f7};
     return R.replay_one(all, check);
   }
   const std::string only = args.get("only");
